@@ -308,7 +308,7 @@ QXmppTask<QXmppMamManager::RetrieveResult> QXmppMamManager::retrieveMessages(con
         iq.parse(std::get<QDomElement>(result));
 
         // decrypt encrypted messages
-        if (auto *e2eeExt = client()->encryptionExtension()) {
+        if (auto *e2eeExt = client()->encryptionExtension(); e2eeExt && !state.messages.isEmpty()) {
             // initialize processed messages (we need random access because
             // decryptMessage() may finish in random order)
             state.processedMessages.resize(state.messages.size());
